@@ -126,6 +126,8 @@ def check_abstraction(ck, ctx):
             if isinstance(par, (ast.If, ast.IfExp, ast.While)) and par.test is n or isinstance(par, ast.BoolOp) or \
                     isinstance(par, ast.UnaryOp) and isinstance(par.op, ast.Not):
                 form = "truth test"
+            elif isinstance(par, ast.Call) and isinstance(par.func, ast.Name) and par.func.id == "bool" and len(par.args) == 1:
+                form = "truth test"
             elif isinstance(par, ast.Compare) and len(par.ops) == 1 and isinstance(par.ops[0], (ast.Is, ast.IsNot)):
                 form = "is None test"
             elif isinstance(par, ast.Attribute) and isinstance(gp, ast.Call) and gp.func is par:
